@@ -501,7 +501,9 @@ fn main() {
     quiet_panics();
     let mut rep = Report::new(
         "C15",
-        "schema models from gen_schema + decorations (specifiedBy, deprecated arguments/input fields, schema description, decoy root types); \
+        "schema models from gen_schema + decorations (specifiedBy, deprecated arguments/input fields, schema description, decoy root types, \
+         interface diamonds, same-named members defined differently by several types); per schema a labelled catalogue of operation documents \
+         (every fault operator of opcheck/mutate.rs, impossible + applicable spreads for every pair of kinds) through both CLI routes; \
          non-trivial = a schema with at least one interface or union, at least one deprecation and at least one description (distinct by SDL text)",
     );
     let mut drv = Driver::spawn(&args.driver);
